@@ -283,6 +283,28 @@ def handle (op : String) (args : List String) : Option String :=
       let q ← mkReq mode kind endian asz enc vendor bases caf daf cie addrs fde
       let caps ← storage? storage
       pure (runS (unwindReq q caps))
+  | "cfi-corpus", [mode, kind, endian, asz, enc, vendor, storage, bases, caf, daf, cie, addrs, fde, _readelf] => do
+      -- a compiler-built FDE; the last token is the `readelf -wF` table the harness compares with
+      let q ← mkReq mode kind endian asz enc vendor bases caf daf cie addrs fde
+      let caps ← storage? storage
+      pure (runS (unwindReq q caps))
+  | "cfi-roweq", [mode, storage, cieA, fdeA, cieB, fdeB] => do
+      -- `UnwindTableRow: PartialEq` on the last rows of two programs (derive(PartialEq) over
+      -- start, end, saved_args_size, cfa, and `RegisterRuleMap::eq` = `Rules.eq`)
+      let caps ← if storage == "heap" || storage == "vec" || storage == "a8x8" then storage? storage else none
+      let mk := fun (cie fde : String) =>
+        mkReq mode "df" "le" "8" "-" "aarch64" "-,-,-" "1" "-8" cie "00100000000000008000000000000000" fde
+      let a ← mk cieA fdeA
+      let b ← mk cieB fdeB
+      let last := fun (q : Req) => match unwindReq q caps with
+        | (rows, .ok _) => rows.getLast?
+        | _ => none
+      pure (match last a, last b with
+        | some ra, some rb =>
+          let eq := ra.startAddress == rb.startAddress && ra.endAddress == rb.endAddress &&
+            ra.savedArgsSize == rb.savedArgsSize && decide (ra.cfa = rb.cfa) && Rules.eq ra.rules rb.rules
+          "ok " ++ toString eq
+        | _, _ => "err NoRow")
   | "cfi-decode", [mode, kind, endian, asz, enc, vendor, bases, cie, addrs, fde] => do
       let q ← mkReq mode kind endian asz enc vendor bases "1" "1" cie addrs fde
       pure (decodeReq q)
